@@ -1933,7 +1933,10 @@ def _trans_and_rec_time_Markovian_const_trans_(node, sus_neighbors, tau, rec_rat
     commented out the more "sophisticated" approach.
     '''
     
-    duration = random.expovariate(rec_rate_fxn(node))
+    rec_rate = rec_rate_fxn(node)
+    if rec_rate == 0: #(zero recovery weight) never recovers, so it transmits along every edge
+        return {v: random.expovariate(tau) for v in sus_neighbors}, float('Inf')
+    duration = random.expovariate(rec_rate)
 
         
     trans_prob = 1-np.exp(-tau*duration)
